@@ -226,5 +226,6 @@ def rules(ctx):
         Rule("R02.f", "write_all receives a converted value (shared with C02)", 5, _reuse("c02", "r02f")),
         Rule("R02.h", "an assignment's value is complete before the destination is written (shared with C02)", 4, _reuse("c02", "r02h")),
         Rule("R09.k", "tables filled while a statement is inferred survive the interruptions of the body's inference (shared with C09)", 1, _reuse("c09", "r09k")),
+        Rule("R09.m", "weak-type replacement through a dereference keeps the pointer's mutability (shared with C09)", 6, _reuse("c09", "r09m")),
         Rule("R09.g", "weak-type replacement never retypes index/member expressions (shared with C09)", 5, _reuse("c09", "r09g")),
     ]
